@@ -36,7 +36,7 @@ func main() {
 	run.Set("delay_bound", D)
 	run.Set("server_deviation_bound", E)
 	run.Sample(map[string]any{"scenario": "S2-3callers-obj-bool-err", "choices": []int{0, 0, 0, 1, 0, 0, 2}, "meaning": "index of the chosen alternative at each scheduling point; 0 = default (keep running / lowest thread id / oldest queued answer as a plain message)"})
-	(&sess.XSpec{Run: run, Scenarios: scenarios(), Budget: budget,
+	(&sess.XSpec{Run: run, Scenarios: scenarios(), Budget: budget, FreeSet: run.ID,
 		Bounds: func(sc *sess.Scenario) sched.Bounds {
 			ops := 0
 			for _, c := range sc.Callers {
